@@ -235,6 +235,14 @@ pub fn form_exp(l: crate::layout::L, form: &str, r: &crate::big::Big) -> Exp {
         "saturating" => Exp::Is(Out::V(l.clamp(r))),
         "wrapping" | "Wrapping" => Exp::Is(Out::V(wr)),
         "overflowing" => Exp::Is(Out::F(wr, !fits)),
+        // decided by the types alone (az::StaticCast): None is always allowed; Some(v) only with the exact, representable value
+        "static" => {
+            if fits {
+                Exp::OneOf(vec![Out::O(None), Out::O(Some(wr))])
+            } else {
+                Exp::Is(Out::O(None))
+            }
+        }
         _ => {
             if fits {
                 Exp::Is(Out::V(wr))
